@@ -16,7 +16,8 @@ EXPLANATION = (
     "constants; other narrowing casts are tabled; (R2) dec∘enc = id for the type-descriptor codes (1,2,3,5,7) against both "
     "decoders, overflow length nibble 15 on both sides; genotype allele coding constants agree on encoder, decoder and "
     "lazy view; (R3) 'unrepresentable ⇒ error': explicit panics reachable in the encoder closure are held against a "
-    "triaged table; (R4) string-map lookups on decode are error exits on a missing index.")
+    "triaged table; (R4) string-map lookups on decode are error exits on a missing index."
+    " (R5) reused destination: read_site / read_record_buf overwrite every column of the vcf RecordBuf they decode into; (R6) append-buffer discipline of the BCF header's text reader.")
 ASSUMPTIONS = ["interval reasoning is dominance-based; per-sample padding and vector length logic are value-level"]
 NOT_DECIDED = ["full record equality, per-sample padding of unequal-length vectors, float bit patterns beyond the reserved-NaN constants"]
 
